@@ -6,6 +6,11 @@ package server
 // both directions, run against unlimited peers in a synctest bubble; the recorded time stamps go to the same TLC
 // trace specification as the multiplex scenarios (spec/TokenBucketTrace.tla), and the driver checks every pair
 // of events itself.
+// Racing scenarios: the user's first N (2..4) connections arrive together. The stub user manager holds every
+// AuthenticateUser call at a barrier until N GetUser calls for the same, not yet active UID are inside it (if the
+// tree lets them be there together; a tree that holds the panel's lock across the call admits one at a time and the
+// barrier is skipped). Each connection then takes its session from the ActiveUser IT was given, and the bound is
+// evaluated over all of them together - that is the statement.
 //   tx: chunks the server side hands to the network (VNet.Tap), without the 5-byte TLS record header;
 //   rx: payload bytes at the moment they become readable by the application on the server side (one
 //       connection per session, so nothing is held back for reordering). Payload <= frame, so only the upper
@@ -30,9 +35,46 @@ import (
 type c19Mgr struct {
 	usermanager.Voidmanager
 	up, down int64
+	panel    *userPanel
+	bar      *c19Barrier // nil: answer at once
 }
 
-func (m *c19Mgr) AuthenticateUser([]byte) (int64, int64, error) { return m.up, m.down, nil }
+// c19Barrier lives OUTSIDE the synctest bubble (plain channel, poller goroutine on the real clock): a goroutine
+// waiting on it is not durably blocked, so the bubble's clock stands still while the racing calls assemble; and a
+// tree that serialises the calls by some other means than the panel's lock is released after 5 s real time.
+type c19Barrier struct {
+	want     int32
+	arrived  atomic.Int32
+	skipped  atomic.Int32
+	finished atomic.Bool
+	release  chan struct{}
+}
+
+func c19NewBarrier(n int) *c19Barrier {
+	b := &c19Barrier{want: int32(n), release: make(chan struct{})}
+	go func() {
+		deadline := time.Now().Add(5 * time.Second)
+		for b.arrived.Load() < b.want && !b.finished.Load() && time.Now().Before(deadline) {
+			time.Sleep(100 * time.Microsecond)
+		}
+		close(b.release)
+	}()
+	return b
+}
+
+func (m *c19Mgr) AuthenticateUser([]byte) (int64, int64, error) {
+	if b := m.bar; b != nil {
+		if !m.panel.activeUsersM.TryRLock() {
+			// the caller holds the panel's write lock across this call: nobody else can be in here with it
+			b.skipped.Add(1)
+			return m.up, m.down, nil
+		}
+		m.panel.activeUsersM.RUnlock()
+		b.arrived.Add(1)
+		<-b.release
+	}
+	return m.up, m.down, nil
+}
 func (m *c19Mgr) AuthoriseNewSession([]byte, usermanager.AuthorisationInfo) error {
 	return nil
 }
@@ -44,7 +86,14 @@ type c19UScn struct {
 	Sessions int    `json:"sessions"`
 	Size     int    `json:"size"`
 	DurS     int    `json:"dur_s"`
+	Racing   int    `json:"racing_first_connections"` // > 0: that many GetUser calls for the fresh UID overlap (= Sessions)
 	Via      string `json:"via"`
+}
+
+type c19UInfo struct {
+	Records int32 `json:"distinct_user_records"` // distinct *ActiveUser handed out to the user's connections
+	Inside  int32 `json:"calls_inside_authenticate_together"`
+	Skipped int32 `json:"calls_under_panel_lock"`
 }
 
 type c19UEv struct {
@@ -65,15 +114,38 @@ func (r *c19URec) add(kind, dir string, n int) {
 	r.mu.Unlock()
 }
 
-func c19URun(sc c19UScn) (evs []c19UEv, err error) {
+func c19URun(sc c19UScn, bar *c19Barrier) (evs []c19UEv, info c19UInfo, err error) {
 	rec := &c19URec{t0: time.Now()}
+	mgr := &c19Mgr{up: sc.Up, down: sc.Down, bar: bar}
 	panel := &userPanel{ // MakeUserPanel without its endless uploader goroutine
-		Manager:          &c19Mgr{up: sc.Up, down: sc.Down},
+		Manager:          mgr,
 		activeUsers:      make(map[[16]byte]*ActiveUser),
 		usageUpdateQueue: make(map[[16]byte]*usagePair),
 		uploadInterval:   defaultUploadInterval,
 	}
+	mgr.panel = panel
 	uid := []byte("c19-user-0123456")
+	// the user record each connection works with: looked up one after the other, or all first connections at once
+	users := make([]*ActiveUser, sc.Sessions)
+	if sc.Racing > 0 {
+		errs := make([]error, sc.Sessions)
+		var rg sync.WaitGroup
+		for s := 0; s < sc.Sessions; s++ {
+			rg.Add(1)
+			go func(s int) {
+				defer rg.Done()
+				users[s], errs[s] = panel.GetUser(uid)
+			}(s)
+		}
+		rg.Wait()
+		bar.finished.Store(true)
+		for _, e := range errs {
+			if e != nil {
+				return nil, info, e
+			}
+		}
+		info.Inside, info.Skipped = bar.arrived.Load(), bar.skipped.Load()
+	}
 	vn := kit.NewVNet()
 	vn.Tap = func(ev kit.TapEvent) {
 		if ev.Kind == "w" && ev.From == 1 && len(ev.Data) > 5 {
@@ -102,17 +174,20 @@ func c19URun(sc c19UScn) (evs []c19UEv, err error) {
 		copy(key[:], kit.NewRng(int64(sc.ID*10+s)).Bytes(32))
 		obfs, e := mux.MakeObfuscator(mux.EncryptionMethodAES256GCM, key)
 		if e != nil {
-			return nil, e
+			return nil, info, e
 		}
 		cfg := mux.SessionConfig{Obfuscator: obfs, MsgOnWireSizeLimit: 16401, InactivityTimeout: 1000000 * time.Second}
 		// the server's path: the user record is looked up (created on first use), the session is made by it
-		user, e := panel.GetUser(uid)
-		if e != nil {
-			return nil, e
+		user := users[s]
+		if user == nil {
+			if user, e = panel.GetUser(uid); e != nil {
+				return nil, info, e
+			}
+			users[s] = user
 		}
 		sesh, existing, e := user.GetSession(uint32(s+1), cfg)
 		if e != nil || existing {
-			return nil, fmt.Errorf("GetSession: existing=%v err=%v", existing, e)
+			return nil, info, fmt.Errorf("GetSession: existing=%v err=%v", existing, e)
 		}
 		peer := mux.MakeSession(uint32(s+1), cfg)
 		srv, peers = append(srv, sesh), append(peers, peer)
@@ -147,7 +222,7 @@ func c19URun(sc c19UScn) (evs []c19UEv, err error) {
 		}(sesh)
 		st, e := peer.OpenStream()
 		if e != nil {
-			return nil, e
+			return nil, info, e
 		}
 		wg.Add(2)
 		writers.Add(1)
@@ -175,9 +250,14 @@ func c19URun(sc c19UScn) (evs []c19UEv, err error) {
 	wg.Wait()
 	time.Sleep(20 * time.Minute) // Cloak's goroutines still inside a Wait leave while the bubble's clock runs
 	synctest.Wait()
+	distinct := map[*ActiveUser]bool{}
+	for _, u := range users {
+		distinct[u] = true
+	}
+	info.Records = int32(len(distinct))
 	rec.mu.Lock()
 	defer rec.mu.Unlock()
-	return rec.evs, nil
+	return rec.evs, info, nil
 }
 
 // c19UCheck: every pair of events of one direction bounds an interval; returns the largest excess over rate*t
@@ -223,19 +303,38 @@ func TestVerifC19User(t *testing.T) {
 	scs := []c19UScn{
 		{ID: 101, Up: 20000, Down: 100000, Sessions: 2, Size: 1400, DurS: 12},
 		{ID: 102, Up: 100000, Down: 20000, Sessions: 3, Size: 16000, DurS: 15},
+		{ID: 105, Up: 20000, Down: 100000, Sessions: 2, Racing: 2, Size: 1400, DurS: 10},
+		{ID: 106, Up: 100000, Down: 20000, Sessions: 3, Racing: 3, Size: 1400, DurS: 10},
 	}
 	if kit.Thorough() {
 		scs = append(scs, c19UScn{ID: 103, Up: 2000, Down: 20000, Sessions: 3, Size: 100, DurS: 40},
-			c19UScn{ID: 104, Up: 100000, Down: 2000, Sessions: 2, Size: 1400, DurS: 30})
+			c19UScn{ID: 104, Up: 100000, Down: 2000, Sessions: 2, Size: 1400, DurS: 30},
+			c19UScn{ID: 107, Up: 20000, Down: 2000, Sessions: 4, Racing: 4, Size: 100, DurS: 30},
+			c19UScn{ID: 108, Up: 2000, Down: 100000, Sessions: 2, Racing: 2, Size: 16000, DurS: 15})
 	}
 	for _, sc := range scs {
 		sc.Via = "server.userPanel.GetUser / ActiveUser.GetSession"
 		res.SetRunning(sc, false)
 		var evs []c19UEv
+		var info c19UInfo
 		var err error
-		synctest.Test(t, func(t *testing.T) { evs, err = c19URun(sc) })
+		var bar *c19Barrier
+		if sc.Racing > 0 {
+			sc.Sessions = sc.Racing
+			bar = c19NewBarrier(sc.Racing) // made outside the bubble on purpose, see c19Barrier
+		}
+		synctest.Test(t, func(t *testing.T) { evs, info, err = c19URun(sc, bar) })
 		if err != nil {
 			t.Fatalf("scenario %d: %v", sc.ID, err)
+		}
+		if sc.Racing > 0 {
+			res.Stat("racing_scenarios", 1)
+			if info.Inside == int32(sc.Racing) {
+				res.Stat("racing_overlapped", 1) // the tree let all first connections into AuthenticateUser together
+			}
+			if info.Records > 1 {
+				res.Stat("racing_split_records", 1) // logged only: the verdict is the measured throughput
+			}
 		}
 		ntx, btx, mtx, ptx, wtx := c19UCheck("tx", sc.Down, evs)
 		nrx, brx, mrx, prx, wrx := c19UCheck("rx", sc.Up, evs)
@@ -247,13 +346,13 @@ func TestVerifC19User(t *testing.T) {
 		if btx == 0 || brx == 0 {
 			res.Stat("dead_scenarios", 1)
 		}
-		res.Sample(map[string]any{"scenario": sc, "tx": map[string]any{"events": ntx, "bytes": btx, "maxmsg": mtx, "peak_queue": ptx},
-			"rx": map[string]any{"events": nrx, "bytes": brx, "maxmsg": mrx, "peak_queue": prx}}, 4)
+		res.Sample(map[string]any{"scenario": sc, "first_use": info, "tx": map[string]any{"events": ntx, "bytes": btx, "maxmsg": mtx, "peak_queue": ptx},
+			"rx": map[string]any{"events": nrx, "bytes": brx, "maxmsg": mrx, "peak_queue": prx}}, 8)
 		if wtx != "" {
-			res.Violate("tx-exceeds", wtx, map[string]any{"user_scenario": sc})
+			res.Violate("tx-exceeds", wtx, map[string]any{"user_scenario": sc, "first_use": info})
 		}
 		if wrx != "" {
-			res.Violate("rx-exceeds", wrx, map[string]any{"user_scenario": sc})
+			res.Violate("rx-exceeds", wrx, map[string]any{"user_scenario": sc, "first_use": info})
 		}
 		// rx carries payload only: maxmsg is set to the burst so that the lower bound is never decided on it
 		tw.Emit(map[string]any{"ev": "reset", "scn": sc.ID,
